@@ -83,6 +83,10 @@ type headerCase struct {
 
 const defaultTTL = 45 * time.Second
 
+// cfgTTL: the default lifetime the cache is attached with; 0 = none configured
+// (an entity is then stored only when the response itself gives a lifetime).
+var cfgTTL = defaultTTL
+
 func headerMenu() []headerCase {
 	return []headerCase{
 		{"absent", nil, false, 0},
@@ -130,6 +134,10 @@ var opAlphabet = []string{
 	// SINGLE (not batched) entity fetches with one selection for different entities
 	`{user(id: "u1") {reviews {stars}}}`,
 	`{user(id: "u3") {reviews {stars}}}`,
+	// two nullable argument variables, ONE undefined and the other explicitly null, and
+	// the other way round: both render alike before the undefined one is removed
+	`query Q($s: Style, $t: Int) {user(id: "u3") {friends {greeting(style: $s, times: $t)}}}§{"t":null}`,
+	`query Q($s: Style, $t: Int) {user(id: "u3") {friends {greeting(style: $s, times: $t)}}}§{"s":null}`,
 }
 
 // splitOp splits an alphabet entry into operation text and variables.
@@ -295,9 +303,9 @@ func runHistory0(ls *labs, hist []step, fault string, faultAt int) (string, []fa
 		}
 		nsets := len(cache.sets)
 		hits0 := cache.hits
-		opt := engine.VerifWithResponseCache(cache, defaultTTL, func(err error) { cacheErrs = append(cacheErrs, err.Error()) })
+		opt := engine.VerifWithResponseCache(cache, cfgTTL, func(err error) { cacheErrs = append(cacheErrs, err.Error()) })
 		if noCallback {
-			opt = engine.VerifWithResponseCache(cache, defaultTTL, nil)
+			opt = engine.VerifWithResponseCache(cache, cfgTTL, nil)
 		}
 		qt, qv := splitOp(q)
 		got, reqs, err := ls.with.Exec(qt, "", qv, opt)
@@ -328,10 +336,14 @@ func runHistory0(ls *labs, hist []step, fault string, faultAt int) (string, []fa
 				default:
 					lim := h.lifetime
 					if lim == 0 {
-						lim = defaultTTL
+						lim = cfgTTL // 0 when no default is configured: nothing may be stored then
 					}
 					if it.TTL > lim || it.TTL <= 0 {
-						fails = append(fails, fail{"lifetime no longer than the response's s-maxage/max-age (else the configured default)", "ttl under header: " + h.name, fmt.Sprintf("step %d %s: ttl %v > %v", i, q, it.TTL, lim)})
+						site := "ttl under header: " + h.name
+						if cfgTTL == 0 {
+							site += " (no default lifetime configured)"
+						}
+						fails = append(fails, fail{"lifetime no longer than the response's s-maxage/max-age (else the configured default)", site, fmt.Sprintf("step %d %s: ttl %v > %v", i, q, it.TTL, lim)})
 					}
 				}
 			}
@@ -444,6 +456,14 @@ func TestCheck(t *testing.T) {
 		}
 		run.Eval(1)
 		out, fails := runHistory(ls, hist, fault, faultAt)
+		if fault == "" {
+			// once more with NO default lifetime configured
+			cfgTTL = 0
+			_, f3 := runHistory(ls, hist, fault, faultAt)
+			cfgTTL = defaultTTL
+			run.Count("histories_without_default_lifetime", 1)
+			fails = append(fails, f3...)
+		}
 		if fault != "" {
 			// once more with the cache attached without an error callback
 			noCallback = true
